@@ -25,10 +25,15 @@ def xrsIndex (index : Option (List Int)) (size : Option Int) : Outcome (List (Na
     | some s => .ok [(0, asU U32 s)]
     | none => .err
 
-/-- `widths.iter().sum::<usize>()` -/
+/-- `widths.iter().sum::<usize>()` (before the repair: an unchecked sum) -/
 def sumUsize : Nat → List Nat → Outcome Nat
   | acc, [] => .ok acc
   | acc, w :: rest => do let a ← addU USIZE acc w; sumUsize a rest
+
+/-- `widths.iter().try_fold(0usize, |sum, &w| sum.checked_add(w))` : an overflow is an error -/
+def sumUsizeCk : Nat → List Nat → Outcome Nat
+  | acc, [] => .ok acc
+  | acc, w :: rest => if acc + w < USIZE then sumUsizeCk (acc + w) rest else .err
 
 /-- `read_field` : `value = (value << 8) | byte` on `u64` (bits shifted out are lost, no check) -/
 def readField (bs : Bytes) : Nat := bs.foldl (fun v b => (v * 256 + b) % U64) 0
@@ -53,16 +58,16 @@ def xrsInner (data : Bytes) (widths : List Nat) (entrySize first count : Nat) :
   | 0, _, off, acc => .ok (off, acc)
   | fuel + 1, i, off, acc =>
     if i ≥ count then .ok (off, acc)
+    -- `entry_size.checked_add(data_offset).is_some_and(|end| end <= data.len())`; the error message
+    -- formats the object number in `u64`
+    else if ¬ (entrySize + off < USIZE ∧ entrySize + off ≤ data.length) then .err
     else do
-      let endOff ← addU USIZE off entrySize
-      if endOff > data.length then do
-        -- the error message formats `first_obj + i`
-        let _ ← addU U32 first i
-        .err
-      else do
-        let fields ← readFields data off widths
-        let ty := fields.getD 0 0
-        let obj ← addU U32 first i
+      let fields ← readFields data off widths
+      let ty := fields.getD 0 0
+      -- `first_obj.checked_add(i)` : an overflow is an error
+      if ¬ (first + i < U32) then .err
+      else
+        let obj := first + i
         if ty > 2 then .err
         else
           let f1 := fields.getD 1 0
@@ -84,7 +89,7 @@ def xrsEntries (w : List Int) (index : Option (List Int)) (size : Option Int) (d
     Outcome (List XEntry) := do
   let widths ← xrsWidths w
   let idx ← xrsIndex index size
-  let entrySize ← sumUsize 0 widths
+  let entrySize ← sumUsizeCk 0 widths
   if entrySize == 0 then .err
   else xrsOuter data widths entrySize idx 0 []
 
@@ -130,7 +135,8 @@ def parseUnsigned (m : Nat) (s : Bytes) : Option Nat :=
   if ds.isEmpty || !ds.all isDigit then none
   else let v := digitsVal ds; if v < m then some v else none
 
-/-- `&line[a..b]` on the lossy-decoded string: byte offsets must fall on unit boundaries -/
+/-- `&line[a..b]` on the lossy-decoded string: byte offsets must fall on unit boundaries (indexing
+panics otherwise; `line.get(a..b)` returns `None`, see `strGet`) -/
 def strSliceAux : Bytes → Nat → Nat → Nat → Bytes → Outcome Bytes
   | [], pos, a, b, acc => if pos == b ∧ a ≤ b then .ok acc.reverse else .panic .boundary
   | u :: rest, pos, a, b, acc =>
@@ -142,28 +148,36 @@ def strSliceAux : Bytes → Nat → Nat → Nat → Bytes → Outcome Bytes
 
 def strSlice (l : Bytes) (a b : Nat) : Outcome Bytes := strSliceAux l 0 a b []
 
+/-- `line.get(a..b)` -/
+def strGet (l : Bytes) (a b : Nat) : Option Bytes :=
+  match strSlice l a b with
+  | .ok s => some s
+  | _ => none
+
 structure XrefEntry where
   offset : Nat
   gen : Nat
   inUse : Bool
 deriving Repr, DecidableEq
 
-/-- `parse_xref_entry_standard` on the trimmed line (`Option` = the function's `Result`) -/
-def entryStandard (l : Bytes) : Outcome (Option XrefEntry) :=
-  if strLen l < 18 then .ok none
-  else do
-    let offS ← strSlice l 0 10
-    let genS ← strSlice l 11 16
-    let flag := l[17]?          -- `line.chars().nth(17)`
-    match parseUnsigned U64 (trimB offS) with
-    | none => pure none
-    | some off =>
-      match parseUnsigned U16 (trimB genS) with
-      | none => pure none
-      | some g =>
-        if flag == some 110 then pure (some ⟨off, g, true⟩)
-        else if flag == some 102 then pure (some ⟨off, g, false⟩)
-        else pure none
+/-- `parse_xref_entry_standard` on the trimmed line (`Option` = the function's `Result`); the two
+columns are taken with `line.get(..)`, a column inside a multi-byte character is `InvalidXRef` -/
+def entryStandard (l : Bytes) : Option XrefEntry :=
+  if strLen l < 18 then none
+  else
+    match strGet l 0 10, strGet l 11 16 with
+    | some offS, some genS =>
+      let flag := l[17]?          -- `line.chars().nth(17)`
+      match parseUnsigned U64 (trimB offS) with
+      | none => none
+      | some off =>
+        match parseUnsigned U16 (trimB genS) with
+        | none => none
+        | some g =>
+          if flag == some 110 then some ⟨off, g, true⟩
+          else if flag == some 102 then some ⟨off, g, false⟩
+          else none
+    | _, _ => none
 
 def entryFlexible (l : Bytes) : Option XrefEntry :=
   match splitWs l with
@@ -193,13 +207,13 @@ def entryFlexible (l : Bytes) : Option XrefEntry :=
             | f :: _ => some ⟨off, gv, f.head? != some 102⟩
 
 /-- `parse_xref_entry(&line)` -/
-def parseEntry (line : Bytes) : Outcome (Option XrefEntry) := do
+def parseEntry (line : Bytes) : Option XrefEntry :=
   let l := trimB line
   if strLen l ≥ 18 then
-    match ← entryStandard l with
-    | some e => pure (some e)
-    | none => pure (entryFlexible l)
-  else pure (entryFlexible l)
+    match entryStandard l with
+    | some e => some e
+    | none => entryFlexible l
+  else entryFlexible l
 
 def kwTrailer : Bytes := [116, 114, 97, 105, 108, 101, 114]
 
@@ -212,11 +226,12 @@ def entryLoop (first count : Nat) : List Bytes → Nat → List Nat → Outcome 
       let t := trimB line
       if t.head? == some 37 then entryLoop first count rest i keys
       else if t == kwTrailer then .ok (rest, keys)
-      else do
-        match ← parseEntry line with
-        | some _ => do
-          let k ← addU U32 first i
-          entryLoop first count rest (i + 1) (keys ++ [k])
+      else
+        match parseEntry line with
+        | some _ =>
+          -- `first_obj_num.checked_add(i).ok_or(InvalidXRef)?`
+          if first + i < U32 then entryLoop first count rest (i + 1) (keys ++ [first + i])
+          else .err
         | none => entryLoop first count rest (i + 1) keys
 
 inductive SectionEnd where
@@ -226,11 +241,12 @@ inductive SectionEnd where
   | inline (line : Bytes) (rest : List Bytes)
 deriving Repr
 
-/-- the outer `loop` over subsections.  At EOF the real loop reads an empty line, `continue`s and
-reads again — for ever. -/
+/-- the outer `loop` over subsections.  At EOF `read_pdf_line` returns 0 bytes: `InvalidXRef`
+(before the repair the loop `continue`d on the empty line for ever, see `sectionLoopOld`).  The fuel
+(one unit per line read by the outer loop) is never exhausted, see `Props/C01`. -/
 def sectionLoop : Nat → List Bytes → List Nat → Outcome (SectionEnd × List Nat)
   | 0, _, _ => .diverge
-  | _, [], _ => .diverge
+  | _, [], _ => .err
   | fuel + 1, line :: rest, keys =>
     let t := trimB line
     if t.isEmpty || t.head? == some 37 then sectionLoop fuel rest keys
@@ -262,7 +278,7 @@ def dictGet (kvs : List (Bytes × Obj)) (k : Bytes) : Option Obj :=
 def kSize : Bytes := [83, 105, 122, 101]
 
 /-- whole function: section loop, trailer object (through the object-parser model), `/Size` check
-with `(*max_obj_num + 1) as i64`.  Result: the keys inserted, in insertion order. -/
+with `*max_obj_num as i64 + 1`.  Result: the keys inserted, in insertion order. -/
 def classicXref (o : LexOpts) (lines : List Bytes) : Outcome (List Nat × Bool) := do
   let (e, keys) ← sectionLoop (lines.length + 1) lines []
   let text := match e with
@@ -277,9 +293,8 @@ def classicXref (o : LexOpts) (lines : List Bytes) : Outcome (List Nat × Bool) 
       match keys.foldl (fun m k => match m with
           | none => some k
           | some x => some (max x k)) none with
-      | some mx => do
-        let m1 ← addU U32 mx 1
-        if (m1 : Int) > sz then .err else pure (keys, r.st.sawStream)
+      | some mx =>
+        if ((mx + 1 : Nat) : Int) > sz then .err else pure (keys, r.st.sawStream)
       | none => pure (keys, r.st.sawStream)
     | _ => pure (keys, r.st.sawStream)
   | _ => pure (keys, r.st.sawStream)
@@ -341,18 +356,24 @@ def flattenRun (maxPages : Nat) (g : List (Nat × PNode)) : Nat → FState → O
     | some s' => flattenRun maxPages g fuel s'
 
 /-! ## stream `/Length` (`parse_stream_data_with_options` → `Lexer::read_bytes`):
-`Vec::with_capacity(n)` and `vec![0u8; n]` run BEFORE the bytes are known to exist -/
+`Vec::with_capacity(n.min(64 * 1024))`, then `take(n).read_to_end` grows the buffer with the bytes
+that are really read (before the repair: `Vec::with_capacity(n)` and `vec![0u8; n]`, see
+`streamAllocRequestOld`) -/
 
-/-- bytes requested from the allocator for a declared `/Length` (not lenient: negative → error) -/
+def READ_BYTES_RESERVE : Nat := 65536
+
+/-- bytes requested from the allocator BEFORE any byte is read, for a declared `/Length` (not
+lenient: negative → error) -/
 def streamAllocRequest (len : Int) : Outcome Nat :=
-  if len < 0 then .err else .ok len.toNat
+  if len < 0 then .err else .ok (min len.toNat READ_BYTES_RESERVE)
 
 /-- outcome of reading a stream body of `avail` bytes with declared `/Length len` when the
 allocator refuses requests of `limit` bytes or more (strict options; the body is `avail` bytes
 `x`, then LF, then `endstream`: the read succeeds when it ends right before or right after the LF) -/
 def streamRead (limit : Nat) (len : Int) (avail : Nat) : Outcome Unit := do
-  let n ← streamAllocRequest len
-  if n ≥ limit then .panic .alloc
+  let req ← streamAllocRequest len
+  let n := len.toNat
+  if req ≥ limit then .panic .alloc
   else if n == avail ∨ n == avail + 1 then .ok ()
   else .err
 
@@ -382,12 +403,13 @@ def objStmPairs (o : LexOpts) : Nat → Nat → Bytes → List (Nat × Nat) → 
       | .panic k => .panic k
       | _ => .err
 
-/-- second loop: `abs_offset = self.first + offset` (u32, CHECKED ADD → panic), parse one object there -/
+/-- second loop: `abs_offset = self.first.checked_add(*offset)` (u32; overflow → error), parse one
+object there -/
 def objStmObjects (o : LexOpts) (first : Nat) (data : Bytes) :
     List (Nat × Nat) → List (Nat × Obj) → Bool → Outcome (List (Nat × Obj) × Bool)
   | [], acc, ss => .ok (acc.reverse, ss)
   | (num, off) :: rest, acc, ss => do
-    let abs ← addU U32 first off
+    let abs ← (if first + off < U32 then .ok (first + off) else .err : Outcome Nat)
     let r := parseTop o (data.drop abs)
     let v ← r.val
     objStmObjects o first data rest ((num, v) :: acc) (ss || r.st.sawStream)
